@@ -44,10 +44,14 @@ var cutNames = [...]string{"the salt", "the fixed-length header", "inside the va
 
 func cutName(class, variation int) string {
 	c := ((class % cutClasses) + cutClasses) % cutClasses
+	s := cutNames[c]
 	if c == cutVar || c == cutInSalt {
-		return fmt.Sprintf("%s (#%d)", cutNames[c], variation)
+		s = fmt.Sprintf("%s (#%d)", s, variation)
 	}
-	return cutNames[c]
+	if c == cutSalt || c == cutInSalt || c == cutFixedShort {
+		s += " [segmented headers not allowed: the fixed-length header]"
+	}
+	return s
 }
 
 // cutOffset: the number of bytes of a request of length n that have arrived after the part ending at the cut. Without
@@ -234,6 +238,18 @@ func stallRegressionPlans() []plan {
 				{Kind: stPresent, Req: 1}, {Kind: stPart, Conn: 0, Pos: cutVar, K: 4}, {Kind: stConc, Req: 0, K: 3}, {Kind: stAdv, D: 30 * time.Second}, {Kind: stPresent, Req: 2},
 				{Kind: stPart, Conn: 0, Pos: cutLast}, {Kind: stAdv, D: 60 * time.Second}, {Kind: stPresent, Req: 3}, {Kind: stAbort, Conn: 0}, {Kind: stPresent, Req: 4},
 				{Kind: stOpen, Req: 4, Conn: 1}, {Kind: stPart, Conn: 1, Pos: cutLast}}})
+		// (g) several presentations given up after their fixed-length header, several more still stalled: fresh requests are accepted all the same
+		pl := plan{Class: c, Seed: seed + 60, Start: t0}
+		for i := 0; i < 4; i++ {
+			pl.Reqs = append(pl.Reqs, reqSpec{At: t0 + time.Duration(i)*time.Second}, reqSpec{At: t0 + time.Duration(i)*time.Second})
+			pl.Steps = append(pl.Steps, step{Kind: stOpen, Req: 2 * i, Conn: i}, step{Kind: stPart, Conn: i, Pos: []int{cutFixed, cutVar1, cutLast, cutVarBody}[i]}, step{Kind: stAdv, D: time.Second},
+				step{Kind: stAbort, Conn: i}, step{Kind: stPresent, Req: 2*i + 1})
+		}
+		for i := 4; i < 8; i++ {
+			pl.Reqs = append(pl.Reqs, reqSpec{At: t0 + 4*time.Second}, reqSpec{At: t0 + 4*time.Second})
+			pl.Steps = append(pl.Steps, step{Kind: stOpen, Req: 2 * i, Conn: i}, step{Kind: stPart, Conn: i, Pos: []int{cutFixed, cutVar1, cutLast, cutSalt}[i-4]}, step{Kind: stPresent, Req: 2*i + 1})
+		}
+		ps = append(ps, pl)
 		// (f) 2-4 stalled copies of one request on the one server, completed in another order after an advance, fresh requests in between
 		for _, k := range []int{2, 3, 4} {
 			for mode, cuts := range [][]int{{cutFixed, cutFixed, cutFixed, cutFixed}, {cutSalt, cutSalt, cutSalt, cutSalt}, {cutVar1, cutSalt, cutLast, cutFixedShort}} {
